@@ -106,6 +106,45 @@ fn main() {
             out.flush().unwrap();
             continue;
         }
+        if p.len() >= 5 && p[0] == "dtop" {
+            // dtop <add|sub|addsub|subadd|trunc> <s|ms|us|ns> <ts> <months> <duration ns (i128)>  ->  R <i64>
+            // dtop <diff|diffadd> <s|ms|us|ns> <a> <b>  ->  R <months> <ns>  |  R <i64>
+            use tevec::prelude::unit::*;
+            let (op, u) = (p[1].to_string(), p[2].to_string());
+            let a: i64 = p[3].parse().unwrap();
+            let q: Vec<String> = p[4..].iter().map(|s| s.to_string()).collect();
+            let r = std::panic::catch_unwind(move || {
+                let mk = |months: i32, ns: i128| -> TimeDelta {
+                    let secs = ns.div_euclid(1_000_000_000) as i64;
+                    let sub = ns.rem_euclid(1_000_000_000) as u32;
+                    TimeDelta { months, inner: chrono::Duration::new(secs, sub).expect("duration out of chrono's range") }
+                };
+                macro_rules! run { ($U:ty) => {{
+                    let t = DateTime::<$U>::new(a);
+                    match op.as_str() {
+                        "diff" => { let d = t - DateTime::<$U>::new(q[0].parse().unwrap());
+                                    format!("{} {}", d.months, d.inner.num_seconds() as i128 * 1_000_000_000 + d.inner.subsec_nanos() as i128) },
+                        "diffadd" => { let b = DateTime::<$U>::new(q[0].parse().unwrap()); format!("{}", (b + (t - b)).0) },
+                        _ => {
+                            let d = mk(q[0].parse().unwrap(), q[1].parse().unwrap());
+                            let r = match op.as_str() { "add" => t + d, "sub" => t - d, "addsub" => (t + d) - d, "subadd" => (t - d) + d,
+                                                        _ => t.duration_trunc(d) };
+                            format!("{}", r.0)
+                        },
+                    }
+                }} }
+                match u.as_str() { "s" => run!(Second), "ms" => run!(Millisecond), "us" => run!(Microsecond), _ => run!(Nanosecond) }
+            });
+            match r {
+                Ok(x) => writeln!(out, "R {}", x).unwrap(),
+                Err(e) => {
+                    let msg = e.downcast_ref::<String>().cloned().or_else(|| e.downcast_ref::<&str>().map(|s| s.to_string())).unwrap_or_default();
+                    writeln!(out, "PANIC {}", msg.replace('\n', " ")).unwrap()
+                },
+            }
+            out.flush().unwrap();
+            continue;
+        }
         if p.len() >= 3 && p[0] == "half_life" {
             // half_life <min_periods|-> <x0,x1,..>  ->  R <lag> | PANIC <msg>
             let mp: Option<usize> = if p[1] == "-" { None } else { Some(p[1].parse().unwrap()) };
